@@ -315,6 +315,9 @@ def verify(h, repo, tier="quick", log=None):
                     if status == "PROVED":
                         obs.append(Ob(oname, "PROVED", backend=backend, time=round(dt, 4), case=case,
                                       outcome=kind))
+                        if gname.startswith("lemma:"):
+                            # a proved lemma of this path may be used by the obligations that follow it
+                            c.assume(gt)
                         continue
                     hints = [to_bterm(x) for x in h.refute_hints(c, st)] if hasattr(h, "refute_hints") else []
                     k, model = refute(c, gt, kmax, timeout, hints)
